@@ -11,12 +11,17 @@
      GenFunsEquivC12   src_async_call_agrees, src_async_current_cell_value_1d_agrees, .._2d_agrees
      GenFunsEquivC07   src_bits_to_int_agrees, src_int_to_bits_agrees, src_binary_rule_agrees
      GenFunsEquivC18   src_binary_derivative_agrees, src_cyclic_binary_derivative_agrees
-     GenFunsEquivC20   src_hopfield_rule_agrees
+     GenFunsEquivC20   src_hopfield_rule_agrees, src_hopfield_train_agrees
+     GenFunsEquivC08   src_totalistic_rule_agrees, src_totalistic_rule_call_agrees(_masked)
+     GenFunsEquivC19   src_apen_maximum_distance_agrees, src_apen_windows_agrees, src_apen_count_agrees
+     GenFunsEquivC16   src_shannon_symbols_agrees, src_shannon_count_agrees, src_joint_indicator_agrees,
+                       src_ami_guard_agrees, src_ami_pair_agrees
    Each property's chain imports only its own gen/GenFuns_Cxx.v; this file (and gen/GenFuns.v) is a convenience. *)
 From CPL Require Export gen.GenFuns.
 From CPL Require Export GenProps.GenFunsEquivC11 GenProps.GenFunsEquivC14 GenProps.GenFunsEquivC15
                         GenProps.GenFunsEquivC13 GenProps.GenFunsEquivC06 GenProps.GenFunsEquivC12
-                        GenProps.GenFunsEquivC07 GenProps.GenFunsEquivC18 GenProps.GenFunsEquivC20.
+                        GenProps.GenFunsEquivC07 GenProps.GenFunsEquivC18 GenProps.GenFunsEquivC20
+                        GenProps.GenFunsEquivC08 GenProps.GenFunsEquivC19 GenProps.GenFunsEquivC16.
 
 Print Assumptions src_game_of_life_rule_agrees.
 Print Assumptions src_sandpile_is_in_boundary_agrees.
@@ -35,3 +40,9 @@ Print Assumptions src_binary_rule_agrees.
 Print Assumptions src_binary_derivative_agrees.
 Print Assumptions src_cyclic_binary_derivative_agrees.
 Print Assumptions src_hopfield_rule_agrees.
+Print Assumptions src_hopfield_train_agrees.
+Print Assumptions src_totalistic_rule_agrees.
+Print Assumptions src_apen_windows_agrees.
+Print Assumptions src_apen_count_agrees.
+Print Assumptions src_joint_indicator_agrees.
+Print Assumptions src_ami_pair_agrees.
